@@ -11,6 +11,12 @@ import z3
 _sort_cache = {}
 
 
+def _stable_hash(s):
+    import hashlib
+
+    return hashlib.md5(s.encode()).hexdigest()[:8]
+
+
 class Ty:
     kind = "?"
     heap = False
@@ -62,7 +68,7 @@ class _NoneT(Ty):
     def _mk_sort(self):
         d = z3.Datatype("NoneT")
         d.declare("none")
-        return d.create()
+        return d.create()  # (single global constructor `none`)
 
 
 NoneT = _NoneT()
@@ -92,16 +98,20 @@ class Tuple(Ty):
     def key(self):
         return "tuple(" + ",".join(t.key() for t in self.items) + ")"
 
+    def _nm(self):
+        return "T" + _stable_hash(self.key())
+
     def _mk_sort(self):
-        d = z3.Datatype("T" + str(abs(hash(self.key())) % 10**8))
-        d.declare("mk", *[("f%d" % i, t.sort()) for i, t in enumerate(self.items)])
+        n = self._nm()
+        d = z3.Datatype(n)
+        d.declare(n + "_mk", *[("%s_f%d" % (n, i), t.sort()) for i, t in enumerate(self.items)])
         return d.create()
 
     def mk(self, *terms):
-        return self.sort().mk(*terms)
+        return getattr(self.sort(), self._nm() + "_mk")(*terms)
 
     def get(self, term, i):
-        return getattr(self.sort(), "f%d" % i)(term)
+        return getattr(self.sort(), "%s_f%d" % (self._nm(), i))(term)
 
 
 class Rec(Ty):
@@ -120,17 +130,17 @@ class Rec(Ty):
 
     def _mk_sort(self):
         d = z3.Datatype("R_" + self.name)
-        d.declare("mk", *[("r_%s_%s" % (self.name, k), t.sort()) for k, t in self.fields.items()])
+        d.declare("R_%s_mk" % self.name, *[("r_%s_%s" % (self.name, k), t.sort()) for k, t in self.fields.items()])
         return d.create()
 
     def mk(self, **terms):
-        return self.sort().mk(*[terms[k] for k in self.fields])
+        return getattr(self.sort(), "R_%s_mk" % self.name)(*[terms[k] for k in self.fields])
 
     def get(self, term, f):
         return getattr(self.sort(), "r_%s_%s" % (self.name, f))(term)
 
     def set(self, term, f, val):
-        return self.sort().mk(*[val if k == f else self.get(term, k) for k in self.fields])
+        return getattr(self.sort(), "R_%s_mk" % self.name)(*[val if k == f else self.get(term, k) for k in self.fields])
 
 
 class Seq(Ty):
@@ -170,13 +180,17 @@ class Union(Ty):
     def key(self):
         return "union(" + "|".join(m.key() for m in self.members) + ")"
 
+    def _nm(self):
+        return "U" + _stable_hash(self.key())
+
     def _mk_sort(self):
-        d = z3.Datatype("U" + str(abs(hash(self.key())) % 10**8))
+        n = self._nm()
+        d = z3.Datatype(n)
         for i, m in enumerate(self.members):
             if m.kind == "none":
-                d.declare("c%d" % i)
+                d.declare("%s_c%d" % (n, i))
             else:
-                d.declare("c%d" % i, ("v%d" % i, m.sort()))
+                d.declare("%s_c%d" % (n, i), ("%s_v%d" % (n, i), m.sort()))
         return d.create()
 
     def index(self, m):
@@ -188,20 +202,20 @@ class Union(Ty):
     def inject(self, m, term):
         i = self.index(m)
         s = self.sort()
-        c = getattr(s, "c%d" % i)
+        c = getattr(s, "%s_c%d" % (self._nm(), i))
         return c if m.kind == "none" else c(term)
 
     def is_(self, term, m):
         i = self.index(m)
         if i is None:
             return z3.BoolVal(False)
-        return getattr(self.sort(), "is_c%d" % i)(term)
+        return getattr(self.sort(), "is_%s_c%d" % (self._nm(), i))(term)
 
     def proj(self, term, m):
         i = self.index(m)
         if m.kind == "none":
             return NoneT.sort().none
-        return getattr(self.sort(), "v%d" % i)(term)
+        return getattr(self.sort(), "%s_v%d" % (self._nm(), i))(term)
 
 
 def Opt(t):
@@ -236,22 +250,26 @@ class VMap(Ty):
         return "vmap(%s,%s)" % (self.k.key(), self.v.key())
 
     def _mk_sort(self):
-        d = z3.Datatype("M" + str(abs(hash(self.key())) % 10**8))
+        n = self._nm()
+        d = z3.Datatype(n)
         d.declare(
-            "mk",
-            ("has", z3.ArraySort(self.k.sort(), z3.BoolSort())),
-            ("val", z3.ArraySort(self.k.sort(), self.v.sort())),
+            n + "_mk",
+            (n + "_has", z3.ArraySort(self.k.sort(), z3.BoolSort())),
+            (n + "_val", z3.ArraySort(self.k.sort(), self.v.sort())),
         )
         return d.create()
 
+    def _nm(self):
+        return "M" + _stable_hash(self.key())
+
     def has(self, term):
-        return self.sort().has(term)
+        return getattr(self.sort(), self._nm() + "_has")(term)
 
     def val(self, term):
-        return self.sort().val(term)
+        return getattr(self.sort(), self._nm() + "_val")(term)
 
     def mk(self, has, val):
-        return self.sort().mk(has, val)
+        return getattr(self.sort(), self._nm() + "_mk")(has, val)
 
 
 # ---- heap types -------------------------------------------------------------------------
